@@ -1621,6 +1621,27 @@ func (w *psWorld) injectClientFrame() {
 		w.ev("inject", "%s (%s) replay of %q", l.nm, l.owner, p.Topic)
 		return
 	}
+	// a forgery that borrows the id of a genuine message still on its way to the client and overtakes it
+	if s.Flip("shadow", 0.2) {
+		for i, fb := range l.inbox {
+			m := &pubsubproto.PubSubMessage{}
+			if m.UnmarshalVT(fb) != nil || m.GetPublish() == nil {
+				continue
+			}
+			g := m.GetPublish()
+			f := &pubsubproto.Publish{SpaceId: g.SpaceId, Topic: g.Topic, MsgId: g.MsgId, Payload: append(append([]byte{}, g.Payload...), '?'), Identity: g.Identity,
+				Signature: append([]byte{}, g.Signature...), TimestampMilli: g.TimestampMilli}
+			if s.Flip("shadow-sig", 0.5) && len(f.Signature) > 0 {
+				f.Payload = g.Payload
+				f.Signature[0] ^= 1
+			}
+			l.inbox = append(l.inbox[:i], append([][]byte{wrapPub(f)}, l.inbox[i:]...)...)
+			r.Fault("forged-publish")
+			w.r.Probe("forgery-with-borrowed-id")
+			w.ev("inject", "%s (%s) forgery with the id of the genuine %q ahead of it", l.nm, l.owner, g.Topic)
+			return
+		}
+	}
 	author := w.accts[s.Choose("forged-author", len(w.accts))]
 	k := s.Choose("forgery", 14)
 	p, what := w.genPublish(author, psSpaces[s.Choose("forged-space", 2)], k)
